@@ -10,6 +10,7 @@ import z3
 from .values import (Sym, SInt, SReal, SBool, SStr, SData, SList, SObj, SExc, SOpaque, SSlice,
                      Unsupported, intern, TInt, TReal, TBool, TStr, TData, TList, TObj, TOpaque)
 from .ctx import PathEnd
+from .ops import str_term as ops_str_term
 from . import ops
 from .ops import (eq, arith, compare, to_bool_term, bool_val, z_and, z_or, z_not, zb, snapshot,
                   int_term, is_sym, type_of, slist_from_py)
@@ -202,6 +203,12 @@ class ExprMixin:
         if isinstance(b, bool):
             return self.ev(node.body if b else node.orelse)
         if self.ctx.spec_mode:
+            # a condition the path has already decided selects its branch (keeps specification terms syntactically
+            # aligned with the terms the code built on this path)
+            if self.ctx.entails(b):
+                return self.ev(node.body)
+            if self.ctx.entails(z3.Not(b)):
+                return self.ev(node.orelse)
             self.ctx.guards.append(b)
             try:
                 x = self.ev(node.body)
@@ -297,6 +304,16 @@ class ExprMixin:
             return SStr(self.ctx.fresh("concat", z3.IntSort()))
         if op == "*" and isinstance(a, list) and isinstance(b, int):
             return a * b
+        if op == "*" and isinstance(a, list) and isinstance(b, SInt) and a and all(ops.is_numeric(e) for e in a):
+            # [u, v, ...] * n for a symbolic n: the list repeated n times (n <= 0 gives the empty list)
+            from .values import TReal
+            k = len(a)
+            terms = [ops.num_term(e)[0] if ops.num_term(e)[1] else z3.ToReal(ops.num_term(e)[0]) for e in a]
+            i = z3.Int("rep_i")
+            body = terms[-1]
+            for q in range(k - 2, -1, -1):
+                body = z3.If(i % k == q, terms[q], body)
+            return SList(z3.simplify(z3.If(b.t > 0, b.t * k, 0)), z3.Lambda([i], body), TReal())
         for x, y, refl in ((a, b, False), (b, a, True)):
             h = getattr(x, "binop", None)
             if h is not None and not isinstance(x, (int, float, str)):
@@ -612,6 +629,21 @@ class ExprMixin:
                 out[k] = self.ev(node.value)
             self.frame.env = saved
             return out
+        # {t.name: t for t in L} over a symbolic list of term references: the insertion-ordered dict of its values, PROVIDED the
+        # keys are pairwise distinct (otherwise later entries would overwrite earlier ones) - that is an obligation
+        from .refs import TRef, STermDict
+        if (isinstance(it, SList) and isinstance(it.elem, TRef) and isinstance(gen.target, ast.Name) and not gen.ifs
+                and isinstance(node.value, ast.Name) and node.value.id == gen.target.id
+                and isinstance(node.key, ast.Attribute) and isinstance(node.key.value, ast.Name)
+                and node.key.value.id == gen.target.id and node.key.attr == "name"):
+            a, b = self.ctx.fresh("dk_a", z3.IntSort()), self.ctx.fresh("dk_b", z3.IntSort())
+
+            def key(t):
+                return ops_str_term(self.getattr(it.elem.wrap(t), "name", node))
+            self.ctx.oblige("dict-keys", z3.ForAll([a, b], z3.Implies(z3.And(0 <= a, a < b, b < it.len),
+                                                                      key(it.arr[a]) != key(it.arr[b]))),
+                            self.line(node), note="keys of the dict comprehension are pairwise distinct")
+            return STermDict(it.copy())
         raise Unsupported("dict comprehension over a symbolic list")
 
     def iterable(self, v, node):
